@@ -1,5 +1,5 @@
 """Loader and indexes for the facts file written by the bpfacts driver."""
-import json, collections
+import json, re, collections
 
 
 def callee_name(term):
@@ -299,11 +299,33 @@ class Facts:
     def reachable_from(self, roots):
         """crate bodies reachable through resolved local calls and closure creation"""
         seen, work = {}, list(roots)
-        while work:
-            b = work.pop()
-            if b.key in seen:
-                continue
-            seen[b.key] = b
-            for _, c in self.local_callees(b):
-                work.append(c)
+        modules = {a.split('::')[0] for a in self.adts}
+        # methods the crate implements for library traits (Iterator::next, PartialEq::eq, Clone::clone, Drop::drop ..) are called back
+        # by library code (`zip(..).any(..)` drives `next`), which no call in the crate's own MIR shows: such a method is reachable as
+        # soon as its Self type occurs in a reachable body
+        callbacks = [f for f in self.fns() if f.impl_trait and f.impl_trait.split('::')[0] not in modules and not f.is_closure
+                     and f.impl_trait not in ('std::fmt::Debug', 'std::fmt::Display') and not f.impl_trait.startswith('serde::')]
+        while True:
+            while work:
+                b = work.pop()
+                if b.key in seen:
+                    continue
+                seen[b.key] = b
+                for _, c in self.local_callees(b):
+                    work.append(c)
+            tys = set()
+            for b in seen.values():
+                for l in b.locals:
+                    tys.add(l['ty'])
+            alltys = ' '.join(tys)
+            more = []
+            for f in callbacks:
+                if f.key in seen or not f.impl_self:
+                    continue
+                base = f.impl_self.split('<')[0]
+                if base and base.split('::')[0] in modules and re.search(r'(^|[^A-Za-z0-9_:])%s($|[^A-Za-z0-9_])' % re.escape(base), alltys):
+                    more.append(f)
+            if not more:
+                break
+            work.extend(more)
         return list(seen.values())
